@@ -234,6 +234,47 @@ func c06Spaces(c *fw.Ctx) {
 			rec(nil)
 		})
 
+	// longer programs, plain rendering only
+	longLen := maxLen + 1
+	c.Space("prog-state-long", fmt.Sprintf("all programs of exactly %d lines over the same reduced alphabet × the same configurations, plain rendering only; one case = one choice of the first 3 lines; non-trivial as above", longLen), true,
+		func(emit func(func(*fw.R))) {
+			for a := range state {
+				for b := range state {
+					for d := range state {
+						a, b, d := a, b, d
+						emit(func(r *fw.R) {
+							idx := make([]int, longLen)
+							idx[0], idx[1], idx[2] = a, b, d
+							var rec func(k int)
+							rec = func(k int) {
+								if k == longLen {
+									ls := make([]zone.Line, longLen)
+									for i, x := range idx {
+										ls[i] = state[x]
+									}
+									nontrivial(r, ls)
+									runProgram(r, ls, nil)
+									return
+								}
+								for x := range state {
+									idx[k] = x
+									rec(k + 1)
+								}
+							}
+							rec(3)
+							r.Sample(func() any {
+								ls := make([]zone.Line, longLen)
+								for i, x := range idx {
+									ls[i] = state[x]
+								}
+								return c06ProgText(ls)
+							})
+						})
+					}
+				}
+			}
+		})
+
 	c06LexicalSpace(c, std)
 	c06TTLSpace(c)
 	c06GenerateSpace(c)
